@@ -334,11 +334,26 @@ def c09(sc, io):
                         raised = raises(newly)
                         kind = "C09-once-across-markets" if earlier else ("C09-removal-raised" if raised else "C09-reduction")
                         res.append((kind, "fills of %s after the removal are %s, the reduction formula gives %s" % (o["o"], got, exp), det))
+            # market-on-close LAY liability on a surviving runner: scaled by every non-zero factor (no 2.5% threshold), once
+            if (before is not None and o["otype"] == "MARKET_ON_CLOSE" and o["side"] == "LAY" and before.get("liab") is not None
+                    and o.get("liab") is not None and not any(r["id"] == o["sel"] for r in newly)):
+                expl = Fraction(before["liab"]).limit_denominator(10**9)
+                if mtype in ("WIN", "PLACE", "OTHER_PLACE") and not raises(newly):
+                    for rr in newly:
+                        a = rr.get("adj")
+                        if a:
+                            own = adj0.get(o["sel"]) or 0
+                            expl *= (1 - Fraction(a, 10000 - own)) if mtype == "WIN" else Fraction(10000 - a, 10000)
+                if not raises(newly) and abs(Fraction(o["liab"]).limit_denominator(10**9) - expl) > Fraction(1, 10**6):
+                    earlier = [(m2, s2) for (m2, s2), uu in removed_seen.items() if any(s2 == rr["id"] for rr in newly) and m2 != mi]
+                    kind = "C09-applied-again" if not newly else ("C09-once-across-markets" if earlier else "C09-moc-liability")
+                    res.append((kind, "market-on-close LAY liability of %s is %s after this update, expected %s (factors %s, own factor %s, %s market)" % (
+                        o["o"], o["liab"], float(expl), [rr.get("adj") for rr in newly], adj0.get(o["sel"]), mtype), det))
             # later updates: prices of old fragments must not change again (applied once)
             if not newly and before is not None and before["frags"] and len(fr) >= len(before["frags"]):
                 if [f[1] for f in fr[:len(before["frags"])]] != [f[1] for f in before["frags"]]:
                     res.append(("C09-applied-again", "fragment prices of %s changed in an update without a new removal" % o["o"], det))
-            prev[key] = {"frags": fr}
+            prev[key] = {"frags": fr, "liab": o.get("liab")}
     return res
 
 
